@@ -106,6 +106,11 @@ def wide_cases(d):
         sg = sem.signed(E, c)
         k = d.randint(0, 99)
         lit = _sized(bits, w, sg)
+        v_ = sem.to_signed(bits, w) if sg else bits
+        if w <= 64 and d.chance(20) and sem.truth(["bin", "==", E, ["lit", v_]], c):
+            # the same value written as a plain Python integer, also beyond 32 bits (the way a user writes an address);
+            # only where it still denotes E's value: a literal wider than E widens the context E is evaluated in
+            lit = ["lit", v_]
         if k < 35:
             return ["expr", ["bin", "==", E, lit]]
         if k < 50:
@@ -205,6 +210,12 @@ def run_case(case, acc=None, want=("C01", "C02")):
     inline = case.get("inline") or []
     if not all(sem.well_formed(s) for s in class_stmts + inline):
         return vios, {}          # not a generated shape (left behind by structural reduction)
+    if case["mode"] == "wide":
+        try:
+            if not sem.all_hold(class_stmts, flat.types_of(prog), dict(case["vstar"])):
+                return vios, {}  # (a reducer candidate whose hidden assignment is no longer a solution claims nothing)
+        except (KeyError, TypeError, ValueError):
+            return vios, {}
     reset_library()
     try:
         ns = flat.build(prog)
